@@ -17,6 +17,11 @@ def main():
                 build.driver_build(d[:-4])
             except build.BuildError as e:
                 sys.stderr.write(str(e) + "\n")
+    # C01-C03 need the tooling interpreter with mpmath (pre-installed: python3-vt)
+    m = subprocess.run(["python3-vt", "-c", "import mpmath; print(mpmath.__version__)"], capture_output=True, text=True)
+    if m.returncode != 0:
+        sys.stderr.write("python3-vt with mpmath not available: C01, C02, C03 cannot run\n" + m.stderr)
+        return 2
     r = tlc.run_tlc("Cases.tla", "Cases.cfg", workers=1, env={"GEN_OUT": "/dev/null"})
     print("setup ok: tree %s, TLC %s" % (build.tree_hash(), "ok" if r["rc"] == 0 else "rc=%s" % r["rc"]))
     return 0
